@@ -684,6 +684,13 @@ func H_C10_spelled(lg Language, n int, form int) {
 
 var errVerifOther = errors.New("verif: injected source failure")
 
+// verifTempErr: a failure that describes itself as temporary (like EINTR/EAGAIN): still a failure.
+type verifTempErr struct{}
+
+func (verifTempErr) Error() string   { return "verif: injected temporary source failure" }
+func (verifTempErr) Temporary() bool { return true }
+func (verifTempErr) Timeout() bool   { return true }
+
 // verifReader delivers a stream in nondeterministic fragments with nondeterministic failures.
 type verifReader struct {
 	stream   []byte
@@ -704,7 +711,7 @@ func (r *verifReader) Read(p []byte) (int, error) {
 	}
 	verifAssume(c < r.maxCalls)
 	k := verifIntRange("k"+itoa(c), 0, len(p))
-	kind := verifIntRange("kind"+itoa(c), 0, 3)
+	kind := verifIntRange("kind"+itoa(c), 0, 4)
 	verifAssume(r.pos+k <= len(r.stream))
 	copy(p[:k], r.stream[r.pos:r.pos+k])
 	r.pos += k
@@ -715,6 +722,8 @@ func (r *verifReader) Read(p []byte) (int, error) {
 		return k, io.EOF
 	case 2:
 		return k, io.ErrUnexpectedEOF
+	case 4:
+		return k, verifTempErr{}
 	}
 	return k, errVerifOther
 }
